@@ -7,43 +7,44 @@ statement before anything else looks at it (`upper_case_unquoted_identifiers`, `
 calls on the keyword text it keeps: `expr.key_command`, `checks.py`, `set_schema`, `create_database`, …); `CaseEq`
 relates two spellings of one statement.  What is *proved* is fakesnow's own part: after `canon` nothing of the
 spelling is left, so every later stage — as any function of the folded tree and the state — yields the same outcome,
-and the names it reports are the folded names.  That sqlglot builds the same tree for both spellings and that DuckDB
+and the names it reports are the folded names.  (`C02/merge-delete-lowercase` was repaired in /repo, commit 9db44bc; with
+it the invariance theorem holds without an envelope.)  That sqlglot builds the same tree for both spellings and that DuckDB
 matches names case-insensitively is trusted and exercised by the twin-run correspondence (`harness/props/c02.py`).
 -/
 namespace Fs.C02
 open Fs.Fold
 
-/-- **Full statement**: two spellings of a statement have the same folded tree (hence the same outcome). -/
-def C02_Full : Prop := ∀ a b : Node, CaseEq a b → canon a = canon b
+/-- `… WHEN MATCHED THEN delete` vs `… THEN DELETE` -/
+def mergeLower : Node := .node 7 [.ident ⟨"t".toList, false⟩, .kwFolded "delete".toList]
+def mergeUpper : Node := .node 7 [.ident ⟨"T".toList, false⟩, .kwFolded "DELETE".toList]
 
-/-- `… WHEN MATCHED THEN delete` vs `… THEN DELETE`: the THEN variable is compared as written -/
-def mergeLower : Node := .node 7 [.ident ⟨"t".toList, false⟩, .kwRaw "delete".toList]
-def mergeUpper : Node := .node 7 [.ident ⟨"T".toList, false⟩, .kwRaw "DELETE".toList]
+/-- **Case invariance** (full): two spellings of a statement — keywords and unquoted identifiers in any letter case,
+    quoted identifiers and literals identical — fold to the same tree. -/
+theorem C02_case_invariant (a b : Node) (h : CaseEq a b) : canon a = canon b :=
+  canon_caseEq a b h
 
-/-- The full statement is false on the pinned tree: the MERGE `THEN` keyword is not folded
-    (finding `C02/merge-delete-lowercase`, to be repaired in /repo by the coordinator). -/
-theorem C02_full_false : ¬ C02_Full := by
-  intro h
-  have := h mergeLower mergeUpper (by simp [mergeLower, mergeUpper, CaseEq, CaseEq.CaseEqList, upper]; decide)
-  revert this; simp [mergeLower, mergeUpper, canon, canon.canonList]
+/-- **Therefore the complete outcome is invariant**: whatever the rest of the pipeline and the engine do — any
+    function `rest` of the folded statement and the state `σ` producing any outcome (rows, column names, rowcount,
+    status text, error, new state) — both spellings give the same outcome. -/
+theorem C02_outcome_invariant {σ ω : Type} (rest : Node → σ → ω) (a b : Node) (h : CaseEq a b) (s : σ) :
+    rest (canon a) s = rest (canon b) s := by
+  rw [canon_caseEq a b h]
 
-/-- the code's decision differs on the two spellings: lower-case `delete` is not recognised (→ AssertionError) -/
-theorem finding_C02_merge_delete_lowercase :
-    CaseEq mergeLower mergeUpper ∧ thenIsDelete "delete".toList = false ∧ thenIsDelete "DELETE".toList = true := by
-  refine ⟨?_, by decide, by decide⟩
-  simp [mergeLower, mergeUpper, CaseEq, CaseEq.CaseEqList, upper]; decide
+/-- Regression witness for the repaired defect `C02/merge-delete-lowercase`: the two MERGE spellings are `CaseEq`
+    and are recognised alike now, whereas the comparison before the repair (`== "DELETE"` on the text as written)
+    rejected the lower-case spelling (→ AssertionError). -/
+theorem C02_old_merge_then_case_sensitive :
+    CaseEq mergeLower mergeUpper ∧ canon mergeLower = canon mergeUpper ∧
+    thenIsDelete "delete".toList = thenIsDelete "DELETE".toList ∧
+    thenIsDeleteOld "delete".toList = false ∧ thenIsDeleteOld "DELETE".toList = true := by
+  refine ⟨?_, ?_, by decide, by decide, by decide⟩
+  · simp [mergeLower, mergeUpper, CaseEq, CaseEq.CaseEqList, upper]; decide
+  · apply canon_caseEq
+    simp [mergeLower, mergeUpper, CaseEq, CaseEq.CaseEqList, upper]; decide
 
-/-- **Case invariance, partial** (envelope: the statement contains no keyword that the code compares as written,
-    i.e. no MERGE `THEN` variable): two spellings fold to the same tree. -/
-theorem C02_case_invariant_partial (a b : Node) (h : CaseEq a b) (henv : NoRawKw a) : canon a = canon b :=
-  canon_caseEq a b h henv
-
-/-- **Therefore the complete outcome is invariant, partial**: whatever the rest of the pipeline and the engine do —
-    any function `rest` of the folded statement and the state `σ` producing any outcome (rows, column names,
-    rowcount, status text, error, new state) — both spellings give the same outcome. -/
-theorem C02_outcome_invariant_partial {σ ω : Type} (rest : Node → σ → ω) (a b : Node) (h : CaseEq a b)
-    (henv : NoRawKw a) (s : σ) : rest (canon a) s = rest (canon b) s := by
-  rw [canon_caseEq a b h henv]
+/-- the MERGE THEN keyword is recognised in every spelling -/
+theorem C02_merge_then_invariant (a b : List Char) (h : upper a = upper b) : thenIsDelete a = thenIsDelete b := by
+  simp [thenIsDelete, h]
 
 /-- folding is a normal form: a second pass changes nothing (the tree handed on is already "as Snowflake names it") -/
 theorem C02_canon_idempotent (n : Node) : canon (canon n) = canon n := canon_idem n
@@ -77,9 +78,8 @@ theorem C02_status_name (n : Node) : statusName n = (firstIdent n).map Ident.nor
   cases i.quoted <;> simp [upper_idem]
 
 /-- …and it is the same for two spellings of the statement. -/
-theorem C02_status_name_invariant_partial (a b : Node) (h : CaseEq a b) (henv : NoRawKw a) :
-    statusName a = statusName b := by
-  simp only [statusName, canon_caseEq a b h henv]
+theorem C02_status_name_invariant (a b : Node) (h : CaseEq a b) : statusName a = statusName b := by
+  simp only [statusName, canon_caseEq a b h]
 
 /-- **Keyword text kept in the tree** (`kind` of CREATE/DROP/DESCRIBE, the USE kind): the code upper-cases it
     before every comparison, so the decision is the same for every spelling. -/
@@ -113,8 +113,8 @@ theorem finding_C02_quoted_variable_name :
 /-! non-vacuity -/
 def stmtA : Node := .node 1 [.kwFolded "schema".toList, .node 2 [.ident ⟨"db1".toList, false⟩, .ident ⟨"My S".toList, true⟩], .lit "x".toList]
 def stmtB : Node := .node 1 [.kwFolded "SCHEMA".toList, .node 2 [.ident ⟨"Db1".toList, false⟩, .ident ⟨"My S".toList, true⟩], .lit "x".toList]
-example : CaseEq stmtA stmtB ∧ NoRawKw stmtA := by
-  simp [stmtA, stmtB, CaseEq, CaseEq.CaseEqList, NoRawKw, NoRawKw.NoRawKwList, upper]; decide
+example : CaseEq stmtA stmtB := by
+  simp [stmtA, stmtB, CaseEq, CaseEq.CaseEqList, upper]; decide
 example : statusName stmtA = some "DB1".toList := by decide
 example : (⟨"Abc_1$".toList, false⟩ : Ident).norm = "ABC_1$".toList := by decide
 
